@@ -20,20 +20,20 @@ T = {
  "C14": ("strict RFC decode of every reply over a (procedure x shape x server state) matrix", "exploration", "Every NFS/MOUNT procedure, unknown programs/versions x argument shapes x states {normal, read-only, op-rate-limited, conn-rate-limited via the real loop, policy drain held open by a parked request, backend faults}; replies decoded by decoders written from the RFC text."),
  "C15": ("survival, XID order, allocation and close-on-undecodable observed from outside a server child process", "exploration", "Random, mutated, truncated and huge-length streams against a real listening server in its own process; a probe connection after every batch; reply XIDs must be an ordered duplicate-free subsequence; allocation read from the child."),
  "C16": ("logical event order at backend gates + live-policy probe + race detector", "exploration", "Controlled schedules (request parked at a chosen backend call, update started, mid-drain request, seeded release orders, short request timeouts) and -race stress with concurrent updaters; policy pointer observed at every backend call."),
- "C17": ("counters under the server's lock, barriered TCP clients, goroutine dump, race detector", "exploration", "Connection storms of up to 4x MaxConnections, idle reaping with back-dated activity, Stop/Close/Unexport in all orders with port probes and goroutine dumps."),
+ "C17": ("counters under the server's lock, barriered TCP clients, goroutine dump, race detector", "exploration", "Connection storms of up to 4x MaxConnections, idle reaping with back-dated activity, refused connections, Stop/Close/Unexport in all orders with port probes and goroutine dumps, and Close/Unexport while several connections keep looking up fresh names over a slowed backend (afterwards no handle and no cache entry may exist)."),
  "C18": ("exact reference token buckets on a virtual clock", "exploration", "rate_limiter.go is compiled with its clock calls rewritten to a virtual clock; every admit/deny decision of seeded event sequences is judged against big.Rat reference buckets; sequences are replayed with the other cleanup interval; handlers wiring checked."),
- "C19": ("must-admit rule with admitted-only global accounting on a virtual clock", "exploration", "Abuser/compliant two-population scenarios; a compliant request must be admitted when the requests actually admitted leave global room."),
+ "C19": ("must-admit rule with admitted-only global accounting on a virtual clock", "exploration", "Abuser/compliant two-population scenarios; a compliant request must be admitted when the requests actually admitted leave global room. Plus a concurrent variant on a frozen clock: the abuser floods from 4-15 goroutines while K requests from fresh addresses arrive and the global bucket holds exactly K tokens."),
  "C20": ("instrumented tasks + structural quiescence audit after Stop + race detector", "exploration", "Pool sizes {1,2,4} x busy x queued x {Stop, Resize grow/shrink/same, both} with racing submitters and seeded gate release orders; verdicts only from facts that hold once Stop has returned; plus requests in flight through the real loop during Close / MaxWorkers change."),
  "C21": ("reference LRU/TTL model on a virtual clock; porcupine per key for concurrent histories", "exploration", "Seeded op sequences on AttrCache and DirCache with exact comparison when nothing expires and safety clauses in the expiry regime; concurrent histories checked by porcupine."),
- "C22": ("durable-state comparison after every backend call of a crash-simulating backend", "fault_enumeration", "Every backend-call boundary of every history is a crash point: the durable bytes are compared with the acknowledged bytes there; each history also ends with a real crash, restart and READ."),
- "C23": ("FSINFO decoded, advertised counts exercised over real record-marked TCP", "exploration", "For each TransferSize (construction and runtime) the advertised maxima/preferred sizes are used in real WRITE/READ calls."),
- "C24": ("configuration snapshots vs a freshly constructed server, serviceability probes", "exploration", "Seeded update sequences with zero/negative/nil/valid fields; GetExportOptions compared with what New reports for the same struct; rejected updates compared field by field; READ/WRITE/LOOKUP probes."),
- "C25": ("byte model with a limit + differential against an unlimited server", "exploration", "WRITE/SETATTR(size) around m for m in {1,100,4096,65537}, limit set at construction or at runtime."),
- "C26": ("cookie walk vs backend listing, strict reply-size measurement", "exploration", "Directories of 0..60 entries with short/long/mixed names; READDIR count / READDIRPLUS maxcount swept from 0 upward; cookies followed to eof."),
- "C27": ("registry map model + strict reply decode over handleCall and real TCP", "exploration", "Seeded SET/UNSET/GETPORT/GETADDR/DUMP sequences over v2/v3/v4 from loopback and non-loopback peers; registry compared with the model after every call."),
+ "C22": ("durable-state comparison after every backend call of a crash-simulating backend", "fault_enumeration", "Every backend-call boundary of every history is a crash point: the durable bytes are compared with the acknowledged bytes there; every third history injects failing Sync/WriteAt/Close calls at seeded points; each history also ends with a real crash, restart and READ. Verifier constancy across reconfiguration, distinctness across instances."),
+ "C23": ("FSINFO decoded, advertised counts exercised over real record-marked TCP", "exploration", "For each TransferSize (on and off the 4096 grid, at construction and at runtime) the advertised maxima/preferred sizes are used in real WRITE/READ calls, sent as one fragment and cut into 64 KiB / 4 KiB / 512-byte fragments."),
+ "C24": ("configuration snapshots vs a freshly constructed server, serviceability probes", "exploration", "Seeded update sequences with zero/negative/nil/valid fields, read-modify-write updates that edit the reported struct in place, Squash changes and spelling variants; GetExportOptions compared with what New reports for the same struct; rejected updates compared field by field against value snapshots; READ/WRITE/LOOKUP probes."),
+ "C25": ("byte model with a limit + differential against an unlimited server", "exploration", "WRITE/SETATTR(size) around m for m in {1,100,4096,65537} and at offsets/sizes near 2^31, 2^32, 2^63, 2^64, limit set at construction or at runtime; an over-limit size change that reaches the backend is witnessed at the backend boundary."),
+ "C26": ("cookie walk vs backend listing, strict reply-size measurement", "exploration", "Directories of 0..60 entries with short/long/mixed names; READDIR count / READDIRPLUS maxcount swept from 0 upward; cookies followed to eof; listings over a backend slower than a small ReaddirTimeout (only the content of OK replies is judged)."),
+ "C27": ("registry map model + strict reply decode over handleCall and real TCP", "exploration", "Seeded SET/UNSET/GETPORT/GETADDR/DUMP sequences over v2/v3/v4 from loopback and non-loopback peers; registry compared with the model after every call; all DUMP variants and both lookups read back against GetMappings() after every second step."),
  "C28": ("conformant record-marking client against each start path", "exploration", "Export (port 0 / explicit), Server.Listen+UseRecordMarking, StartWithPortmapper x debug; NULL, MNT, GETATTR; a non-framing server shows as an observed EOF."),
  "C29": ("porcupine on client-boundary histories per owner, window rule for cached modes, interval rule for listings, quiescent audit, race detector", "exploration", "3-6 concurrent clients with seeded yields at backend boundaries in strict/cached/cached+dir+neg modes over HandleCall and the real loop."),
- "C30": ("real crypto/tls clients over a configuration x client matrix; certificate serial identifies what was served", "exploration", "Min/Max version x ClientAuth x CA x cipher subset against clients pinned to TLS 1.0-1.3 with no / self-signed / CA1 / CA2 certificates; rotation via GetExportOptions().TLS.ReloadCertificates()."),
+ "C30": ("real crypto/tls clients over a configuration x client matrix; certificate serial identifies what was served", "exploration", "Min/Max version x ClientAuth x CA x cipher subset against clients pinned to TLS 1.0-1.3 with no / self-signed / CA1 / CA2 certificates; rotation via GetExportOptions().TLS.ReloadCertificates() as a scenario matrix (settings fetched before/after Listen x runtime updates in between, rotated twice)."),
 }
 NOTE = "Trusted base: Go toolchain + race detector, the harness library (refs backend, rfc strict decoders, xdrw encoder, evid) and the model of this property; the harness is injected into package absnfs with -overlay (tag verif), /repo is not edited. Holds only on the executions produced (seed-determined case lists)."
 claimed = [l.strip() for l in open(os.path.join(V, "tools", "claimed.txt")) if l.strip() and not l.startswith("#")]
